@@ -8,6 +8,9 @@
 #   corpus : every meson.build / meson.options / meson_options.txt under the repo, and for every distinct file of
 #            <= 20 / 60 tokens its complete single-edit neighbourhood (delete, duplicate, swap, replace by each alphabet token)
 #   chars  : every string of length <= 3 / 4 over a 21-character set: lexer alone, and parser alone + inside two frames
+#   gaps   : every trivia in every gap and pair of gaps of 10 one-statement skeletons
+#   blocks : every nesting (depth <= 2 / 3) of the five block forms in every clause body x every trivia in every gap and in
+#            every pair of line-end boundaries (two block keywords on one line, glued, continued, commented, no final newline)
 # Oracle (c02core.evaluate): a MesonException with a line/column inside the text, or a tree whose RawPrinter output is
 # the input byte for byte and whose every FunctionNode/ArrayNode extent, cut with the rewriter's offset arithmetic,
 # is exactly the construct. Any other exception is a violation. Defect classes get narrow keys (c02core.classify_*).
@@ -535,6 +538,138 @@ def part_gaps(ck, total):
 
 
 # ------------------------------------------------------------------------------------------------------------
+# blocks: block statements nested in each other.  The gap skeletons above hold one flat `if` and one flat `foreach`; the token
+# sequences are far too short for a block inside a block (11 tokens at least).  Here the skeletons are ALL nestings, up to a
+# depth, of the five block forms (if / if-else / if-elif / if-elif-else / foreach) in every clause body of the enclosing
+# form, the inner block alone in its body, after a plain statement, or before one.  Every place where a statement or a
+# block keyword line ends ("boundary", a newline in the plain rendering, the end of the text included) is filled with every
+# kind of trivia, one boundary and every pair of boundaries at a time - also the ones that keep two block keywords on one
+# logical line (blank, tab, line continuation) or glue them together; every other gap gets every trivia once.
+# Oracle as everywhere: rejected with a located error, or printed back byte for byte with exact extents.
+BLOCK_FORMS = [('if', ['if']), ('if-else', ['if', 'else']), ('if-elif', ['if', 'elif']),
+               ('if-elif-else', ['if', 'elif', 'else']), ('foreach', ['foreach'])]
+BLOCK_HEAD = {'if': ['if', 'a'], 'elif': ['elif', 'b'], 'else': ['else'], 'foreach': ['foreach', 'i', ':', 'd']}
+BLOCK_AROUND = ['alone', 'after-statement', 'before-statement']
+BLOCK_LEAF = ['f', '(', ')']
+BLOCK_CLOSERS = frozenset(('endif', 'endforeach'))
+BLOCK_KEYWORDS = frozenset(('if', 'elif', 'else', 'endif', 'foreach', 'endforeach'))
+SAME_LINE_TRIVIA = frozenset((' ', '  ', '\t', '\\\n', ' \\\n  '))
+# in PAIRS of boundaries: one trivia of each nature (nothing, blank, continuation, comment + newline, empty line); the full list
+# is used for pairs in skeletons of depth <= 2 in the thorough tier, and for every single gap always
+PAIR_TRIVIA = ['', ' ', '\\\n', ' #c\n', '\n\n']
+
+
+def block_skeletons(depth):
+    """[(description, tokens, boundary)]: boundary[i] is True when the gap after token i ends a line in the plain rendering"""
+    out = []
+
+    def emit(chain, around):
+        # chain: [(form index, clause index holding the next level)], innermost last (its clause index is None)
+        toks, bnd = [], []
+
+        def put(words, end_of_line=True):
+            for w in words:
+                toks.append(w)
+                bnd.append(False)
+            bnd[-1] = end_of_line
+
+        def block(level):
+            fi, hold = chain[level]
+            clauses = BLOCK_FORMS[fi][1]
+            for ci, cl in enumerate(clauses):
+                put(BLOCK_HEAD[cl])
+                if level + 1 < len(chain) and ci == hold:
+                    if around == 'after-statement':
+                        put(BLOCK_LEAF)
+                    block(level + 1)
+                    if around == 'before-statement':
+                        put(BLOCK_LEAF)
+                else:
+                    put(BLOCK_LEAF)
+            put(['endforeach' if clauses[0] == 'foreach' else 'endif'])
+        block(0)
+        desc = ' > '.join(BLOCK_FORMS[fi][0] + ('' if hold is None else '[%s body]' % BLOCK_FORMS[fi][1][hold]) for fi, hold in chain)
+        out.append((desc + (' (inner block %s)' % around if len(chain) > 1 else ''), toks, bnd))
+
+    def chains(prefix, d):
+        for fi in range(len(BLOCK_FORMS)):
+            yield prefix + [(fi, None)]
+            if d > 1:
+                for hold in range(len(BLOCK_FORMS[fi][1])):
+                    yield from chains(prefix + [(fi, hold)], d - 1)
+    for ch in sorted(chains([], depth), key=lambda c: (len(c), c)):      # simplest first
+        for around in (BLOCK_AROUND if len(ch) > 1 else BLOCK_AROUND[:1]):
+            emit(ch, around)
+    return out
+
+
+def block_text(toks, bnd, fill):
+    out = []
+    for i, t in enumerate(toks):
+        out.append(t)
+        g = fill.get(i)
+        if g is None:
+            g = '\n' if bnd[i] else ' '
+        out.append(g)
+    return ''.join(out)
+
+
+def blocks_job(item):
+    si, (desc, toks, bnd), ptriv = item
+    acc = Acc()
+    seen = set()
+    B = [i for i in range(len(toks)) if bnd[i]]
+
+    def run(fill):
+        text = block_text(toks, bnd, fill)
+        if text in seen:
+            return
+        seen.add(text)
+        o = evaluate(text, False)
+        acc.record(text, o, lambda: 'blocks skeleton %d (%s), trivia %r' % (si, desc, sorted(fill.items())))
+        acc.add('block_texts')
+        if o.cls == 'accept':
+            for i, g in fill.items():
+                if g in SAME_LINE_TRIVIA and i + 1 < len(toks) and toks[i] in BLOCK_CLOSERS and toks[i + 1] in BLOCK_KEYWORDS:
+                    acc.add('accepted_closer_and_next_block_keyword_on_one_line')
+                    if toks[i + 1] in BLOCK_CLOSERS:
+                        acc.add('accepted_two_closers_on_one_line')
+                    break
+            if text[-1:] != '\n':
+                acc.add('accepted_without_final_newline')
+    run({})
+    for i in range(len(toks)):
+        for a in GAP_TRIVIA:
+            run({i: a})
+    for x, i in enumerate(B):
+        for j in B[x + 1:]:
+            for a in ptriv:
+                for b in ptriv:
+                    run({i: a, j: b})
+    return acc
+
+
+def part_blocks(ck, total):
+    D = int(os.environ.get('C02_BLOCK_DEPTH') or ck.q(2, 3))
+    sk = block_skeletons(D)
+    acc = Acc()
+    full_upto = ck.q(0, 2)           # nesting depth up to which pairs of boundaries get the full trivia list
+    items = [(i, s, GAP_TRIVIA if s[0].count(' > ') < full_upto else PAIR_TRIVIA) for i, s in enumerate(sk)]
+    for a in pmap(blocks_job, items, chunksize=1):
+        acc.merge(a)
+    n = acc.n
+    need(n.get('accept', 0) > 1000 and n.get('reject', 0) > 1000, 'block family verdicts one-sided')
+    need(n.get('accepted_two_closers_on_one_line', 0) > 0 and n.get('accepted_closer_and_next_block_keyword_on_one_line', 0) > 0
+         and n.get('accepted_without_final_newline', 0) > 0,
+         'block family: no accepted text closes two blocks on one line / ends without a newline')
+    ck.part('blocks', forms=[f for f, _ in BLOCK_FORMS], max_depth=D, inner_block_positions=BLOCK_AROUND, skeletons=len(sk),
+            trivia=len(GAP_TRIVIA), pair_trivia=len(PAIR_TRIVIA), full_trivia_in_pairs_up_to_depth=full_upto, boundaries_max=max(sum(b) for _, _, b in sk), **{k: v for k, v in sorted(n.items())})
+    ck.sample({'blocks_skeleton': sk[len(sk) // 2][0], 'plain_text': block_text(sk[len(sk) // 2][1], sk[len(sk) // 2][2], {})})
+    total.merge(acc)
+    return D, len(sk)
+
+
+# ------------------------------------------------------------------------------------------------------------
 # pairs (lib/verif/c02pairs.py): the verdict for a text must not depend on what the same process parsed before
 def part_pairs(ck, total):
     from verif import c02pairs as cp
@@ -676,6 +811,9 @@ def main():
         N, N2 = part_tokens(ck, total)
     if ck.want('gaps'):
         part_gaps(ck, total)
+    BD = BS = None
+    if ck.want('blocks'):
+        BD, BS = part_blocks(ck, total)
     if ck.want('pairs'):
         part_pairs(ck, total)
     if ck.want('scale'):
@@ -708,8 +846,9 @@ def main():
                    'separator policies, and of length <= %s over a %d-token core alphabet with single spaces (extensions of dead '
                    'prefixes are not run: counted in pruned_inputs, argument re-validated 1-in-K); corpus: every build/options file under the repo + '
                    'every single token edit of each distinct file of <= %s tokens; chars: every string of length <= %s over %d '
-                   'characters alone and in %d frames. distinct_nontrivial = distinct outcome signatures (exception type + '
-                   'message head for rejects, first three top-level node types for accepts)' % (N, A, NPOL, N2, len(CORE), T_, L, len(CHARS), len(FRAMES)),
+                   'characters alone and in %d frames; blocks: every nesting of the 5 block forms up to depth %s (%s skeletons) x every trivia in every gap '
+                   'and in every pair of line-end boundaries. distinct_nontrivial = distinct outcome signatures (exception type + '
+                   'message head for rejects, first three top-level node types for accepts)' % (N, A, NPOL, N2, len(CORE), T_, L, len(CHARS), len(FRAMES), BD, BS),
               exhaustive=True)
 
 
